@@ -11,17 +11,17 @@ W=/tmp/acc-$ID-${TAG:-}$CH
 git -C /repo worktree remove --force $W >/dev/null 2>&1; rm -rf $W
 git -C /repo worktree add -q --detach $W HEAD || exit 2
 trap 'git -C /repo worktree remove --force '$W' >/dev/null 2>&1; rm -rf '$W' '$W'.head' EXIT
-demo() {  # $1 = built tree
-  if [ -f "$SRC/demo.sh" ]; then (cd "$SRC" && timeout $TMO bash ./demo.sh "$1"); 
-  elif [ -f "$SRC/demo.py" ]; then (cd "$SRC" && timeout $TMO python3 ./demo.py "$1");
+demo() {  # $1 = built tree, $2 = matching source tree
+  if [ -f "$SRC/demo.sh" ]; then (cd "$SRC" && timeout $TMO bash ./demo.sh "$1" "$2"); 
+  elif [ -f "$SRC/demo.py" ]; then (cd "$SRC" && timeout $TMO python3 ./demo.py "$1" "$2");
   else echo "no demo"; return 99; fi
 }
 cmake -G Ninja -S $W -B $W.head -DCMAKE_BUILD_TYPE=Release >/dev/null 2>&1 && ninja -C $W.head >/dev/null 2>&1 || { echo "HEAD build failed"; exit 2; }
-demo $W.head > $W.head/demo_head.txt 2>&1; DH=$?
+demo $W.head $W > $W.head/demo_head.txt 2>&1; DH=$?
 git -C $W apply "$SRC/patch.diff" || { echo "patch does not apply"; exit 2; }
 cmake -G Ninja -S $W -B $W/_b -DCMAKE_BUILD_TYPE=Release >/dev/null 2>&1 && ninja -C $W/_b >/dev/null 2>&1 || { echo "changed build failed"; exit 2; }
 ST=$(/var/tmp/run_stable.sh $W/_b 2>&1 | tail -1)
-demo $W/_b > $W/_b/demo_changed.txt 2>&1; DC=$?
+demo $W/_b $W > $W/_b/demo_changed.txt 2>&1; DC=$?
 echo "$ID/$CH: demo(HEAD)=$DH demo(changed)=$DC stable: $ST"
 if [ $DH -eq 0 ] && [ $DC -ne 0 ] && echo "$ST" | grep -q "failing \[\]"; then
   D=/verif/seeded/$ID-${TAG:-}$CH; mkdir -p $D
